@@ -163,9 +163,13 @@ def value_check(got, want, size, scales):
 # executing one call (the same code is the replay)
 
 
+EXECUTED = []  # every snippet this process has run so far, in order (the history a later call may depend on)
+
+
 class Run:
     def __init__(self, setup, call):
         self.code = setup + call
+        EXECUTED.append(self.code)
         env = {}
         exec(PRELUDE, env)
         self.warn_runtime = False
@@ -432,11 +436,100 @@ def run(tier, seed):
 
     chk = core.Check("C17", tier, seed)
     chk.proof = core.prove("C17", PROOF_MODULES, extra_targets=("drv_c17",), tier=tier)
+    orig_fail = chk.fail
+
+    def fail_with_history(key, what, replay):
+        if isinstance(replay, dict):
+            replay = dict(replay, _hist_len=len(EXECUTED))
+        orig_fail(key, what, replay)
+
+    chk.fail = fail_with_history
     try:
         _sweep(chk, tier)
     except Exception:  # noqa: BLE001 — a harness that cannot finish has not shown the property
         chk.disagree("harness-error", traceback.format_exc()[-1500:])
+    chk.fail = orig_fail
+    try:
+        history_replays(chk)
+    except Exception:  # noqa: BLE001
+        chk.disagree("harness-error", "history replays: " + traceback.format_exc()[-800:])
     return chk.finish(RULE)
+
+
+def _fails_alone(code):
+    import subprocess
+
+    p = subprocess.run([core.PY, "-W", "ignore", "-c", code], cwd=core.REPO, capture_output=True, text=True,
+                       env=dict(os.environ, PYTHONPATH=core.REPO))
+    return p.returncode != 0
+
+
+def history_replays(chk):
+    """A failure seen by the in-process oracle whose single-call replay PASSES in a fresh process depends on
+    the calls made before it (a process-wide cache keyed too coarsely, a memo filled by another dtype …).
+    Its replay is then rebuilt as: the earlier calls of this run, in order, each in its own namespace, then
+    the failing call with its assertion — and shrunk to a suffix that still fails.  Only failures whose key is
+    not a kept finding are treated (their number is small)."""
+    known = {k["key"] for k in core.load_known() if k["property"] == "C17" and k.get("status") == "known"}
+    done = 0
+    first = set()
+    for i, (key, what, replay) in enumerate(chk.failures):
+        if not isinstance(replay, dict) or "python" not in replay:
+            continue
+        n = replay.pop("_hist_len", None)
+        # `finish` reports the first failure of each key: that is the one whose replay must reproduce
+        if key in first:
+            continue
+        first.add(key)
+        if key in known or n is None or done >= 8:
+            continue
+        code = replay["python"]
+        if _fails_alone(code):
+            continue
+        done += 1
+        tail = code[len(PRELUDE) + len(ASSERT_HELPERS):] if code.startswith(PRELUDE + ASSERT_HELPERS) else None
+        if tail is None:
+            continue
+        hist = EXECUTED[:max(n - 1, 0)]
+
+        def build(h):
+            return (PRELUDE + ASSERT_HELPERS + "_PRELUDE = " + repr(PRELUDE) + "\n_HIST = " + repr(h)
+                    + "\nfor _c in _HIST:\n    _e = {}\n    exec(_PRELUDE, _e)\n    try:\n        exec(_c, _e)\n"
+                      "    except Exception:\n        pass\n" + tail)
+
+        k = 64
+        found = None
+        while True:
+            h = hist[-k:]
+            if _fails_alone(build(h)):
+                found = h
+                break
+            if k >= len(hist):
+                break
+            k *= 8
+        if found is None:
+            chk.count("history-dependent-failure-not-reproduced")
+            continue
+        # shrink: drop halves / single entries while it still fails (bounded effort)
+        budget = 24
+        step = max(len(found) // 2, 1)
+        while step >= 1 and budget > 0:
+            j = 0
+            progressed = False
+            while j < len(found) and budget > 0:
+                trial = found[:j] + found[j + step:]
+                budget -= 1
+                if trial != found and _fails_alone(build(trial)):
+                    found = trial
+                    progressed = True
+                else:
+                    j += step
+            if not progressed or step == 1:
+                step //= 2
+        replay["python"] = build(found)
+        replay["history_dependent"] = f"the single call passes in a fresh process; it fails after {len(found)} earlier call(s) of this run"
+        chk.failures[i] = (key, what + " [only after earlier calls in the same process: see the replay]", replay)
+        chk.count("history-dependent-failure-replayed")
 
 
 def _sweep(chk, tier):
